@@ -366,6 +366,75 @@ var Helpers = []*HelperEntity{
 			k := max(p[0], p[1]) - p[1]
 			return [][]F{in[0][min(k, len(in[0])):]}
 		}},
+	{Name: "helper.SyncPeriods3", NIn: 3, NParam: 3, // the periods are kept in a slice that is used again after CommonPeriod
+		Build: func(p []int, in []<-chan F) []<-chan F {
+			ps := []int{p[0], p[1], p[2]}
+			common := helper.CommonPeriod(ps...)
+			outs := make([]<-chan F, 3)
+			for i := range outs {
+				outs[i] = helper.SyncPeriod(common, ps[i], in[i])
+			}
+			return outs
+		},
+		Model: func(p []int, in [][]F) [][]F {
+			m := max(p[0], p[1], p[2])
+			r := make([][]F, 3)
+			for i := range r {
+				r[i] = in[i][min(m-p[i], len(in[i])):]
+			}
+			return r
+		}},
+	{Name: "helper.FilterPointers", NIn: 1, // elements are pointers, every third one nil, and the predicate accepts nil
+		Build: func(p []int, in []<-chan F) []<-chan F {
+			ptrs := make(chan *F)
+			simrt.GoKind("cons", func() {
+				k := 0
+				for {
+					consYield()
+					v, ok := <-in[0]
+					if !ok {
+						close(ptrs)
+						return
+					}
+					k++
+					if k%3 == 0 {
+						ptrs <- nil
+					} else {
+						w := v
+						ptrs <- &w
+					}
+				}
+			})
+			kept := helper.Filter(ptrs, func(v *F) bool { return v == nil || int(*v)%2 == 0 })
+			out := make(chan F)
+			simrt.GoKind("cons", func() {
+				for {
+					consYield()
+					v, ok := <-kept
+					if !ok {
+						close(out)
+						return
+					}
+					if v == nil {
+						out <- -999
+					} else {
+						out <- *v
+					}
+				}
+			})
+			return one(out)
+		},
+		Model: func(p []int, in [][]F) [][]F {
+			r := []F{}
+			for i, v := range in[0] {
+				if (i+1)%3 == 0 {
+					r = append(r, -999)
+				} else if int(v)%2 == 0 {
+					r = append(r, v)
+				}
+			}
+			return [][]F{r}
+		}},
 	{Name: "helper.Drain", NIn: 1,
 		Build: func(p []int, in []<-chan F) []<-chan F {
 			simrt.Go(func() { helper.Drain(in[0]) })
